@@ -23,7 +23,8 @@ Builds on harness/llh_fixtures.py (read-only, shared).  What is added here:
 
 A case is a JSON-able dict:
   K, groups [sizes], W [K],
-  layout: list of  {'ns': True}  |  {'fixed': bool, 'map': [K x (-1 unmapped | 0 gamma | 1 ecut)], 'value': float}
+  layout: list of  {'ns': True}  |  {'fixed': bool, 'map': [K x (-1 unmapped | 0 gamma | 1 ecut | 2 beta)], 'value': float,
+                                      optional 'declared_fixed': bool (status at declaration; changed to 'fixed' afterwards)}
   theta:  values of the floating parameters in declaration order (including ns)
   ds:     list of {'N', 'E', 'mask': None | K x E 0/1, 'cA','sA','cB','sB': K x E, 'y0','u','v': [K],
                    optional 'lg','lx': [K], optional 'parA','parB': bool (False: that factor is a parameter-free
@@ -173,13 +174,19 @@ def make_pmm_layout(sources, layout, ns_max=1e9):
     models = [det] + list(sources)
     pmm = ParameterModelMapper(models=models)
     i = 0
+    later = []
     for p in layout:
         if p.get('ns'):
             pmm.map_param(Parameter('ns', 1.0, -ns_max, ns_max), models=det)
             continue
         i += 1
         par = Parameter('p%d' % i, float(p['value']), min(VMIN, float(p['value'])), max(VMAX, float(p['value'])))
-        if p['fixed']:
+        # 'declared_fixed': the parameter is declared with the other status and fixed / floated after all parameters are
+        # mapped (ParameterSet.make_params_fixed / make_params_floating, as analyses do for profile scans)
+        declared = p.get('declared_fixed', p['fixed'])
+        if declared != p['fixed']:
+            later.append((par.name, p))
+        if declared:
             par.make_fixed(float(p['value']))
         ms = [sources[k] for k, nm in enumerate(p['map']) if nm >= 0]
         if not ms:
@@ -189,6 +196,12 @@ def make_pmm_layout(sources, layout, ns_max=1e9):
         # one local name per pmm model (only the entries of the mapped models are used)
         names = ['unused'] + [LOCAL_NAMES[nm] if nm >= 0 else 'unused' for nm in p['map']]
         pmm.map_param(par, models=ms, model_param_names=names)
+    for (name, p) in later:
+        if p['fixed']:
+            pmm.global_paramset.make_params_fixed({name: float(p['value'])})
+        else:
+            v = float(p['value'])
+            pmm.global_paramset.make_params_floating({name: (v, min(VMIN, v), max(VMAX, v))})
     return pmm
 
 
@@ -357,9 +370,23 @@ def grid_bkg():
     return 1.5 - 1.0 * GRID_EDGES
 
 
-def _grid_x(case, trial):
+def _grid_x(case, trial, j=0):
     x = np.array(case['x'], dtype=np.float64)
+    if j:
+        x = np.mod(x * 0.61 + 0.17 * j, 0.96) + 0.02
     return x if not trial else np.mod(x * 0.37 + 0.21 * trial, 0.96) + 0.02
+
+
+def _grid_mask(case, trial, j):
+    """event selection of dataset j (None: all events for all sources): a non-trivial (source, event) pair list"""
+    if not case.get('sel'):
+        return None
+    K, E = case['K'], len(case['x'])
+    ee, kk = np.meshgrid(np.arange(E), np.arange(K))
+    m = ((ee * 5 + kk * 3 + j + trial) % 4) != 0
+    if not m.any():
+        m[0, 0] = True
+    return m
 
 
 def build_grid(case, trial=0):
@@ -374,7 +401,7 @@ def build_grid(case, trial=0):
     K = case['K']
     cfg = fx.make_cfg()
     sources = fx.make_sources(K, weights=case['W'])
-    shg_mgr = fx.make_shg_mgr(cfg, sources)
+    shg_mgr = fx.make_shg_mgr(cfg, sources, group_sizes=case.get('groups'))
     pmm = make_pmm_layout(sources, case['layout'])
     B.cfg, B.sources, B.shg_mgr, B.pmm = cfg, sources, shg_mgr, pmm
     axes = [BinningDefinition('x', GRID_EDGES)]
@@ -382,33 +409,45 @@ def build_grid(case, trial=0):
     # sets add (ParameterGrid.add_extra_lower_and_upper_bin): the bounds are the outermost legal grid points
     gvals = np.around(VMIN - GRID_DELTA + GRID_DELTA * np.arange(13), 1) if case.get('edge_grid') else GRID_VALUES
     grid = ParameterGrid('gamma', gvals, delta=GRID_DELTA, decimals=1)
-    pdfs = []
-    for g in gvals:
-        # public constructor only: it builds the linear RegularGridInterpolator on the bin edges itself
-        pdf = SignalMultiDimGridPDF(pmm=pmm, axis_binnings=axes, pdf_grid_data=grid_sig(g), cfg=cfg)
-        pdfs.append(({'gamma': float(g)}, pdf))
     icls = Linear1DGridManifoldInterpolationMethod if case['interp'] == 'linear' \
         else Parabola1DGridManifoldInterpolationMethod
-    sigset = SignalMultiDimGridPDFSet(
-        pmm=pmm, param_set=ParameterSet([Parameter('gamma', 1.5, float(gvals[0]), float(gvals[-1]))]),
-        param_grid_set=grid, gridparams_pdfs=pdfs, interpol_method_cls=icls, cfg=cfg)
-    bkg = BackgroundMultiDimGridPDF(pmm=pmm, axis_binnings=axes, pdf_grid_data=grid_bkg(), cfg=cfg)
-    inner = SigOverBkgPDFRatio(sig_pdf=sigset, bkg_pdf=bkg, same_axes=False, cfg=cfg)
-    Y = np.array([case['y']], dtype=np.float64)
+    J = case.get('J', 1)
+    Y = np.array([np.array(case['y'], dtype=np.float64) * (1.0 + 0.3 * j) if j % 2 == 0
+                  else np.array(case['y'], dtype=np.float64)[::-1] * (1.0 + 0.3 * j) for j in range(J)])
     (dsy, sdw, dswf) = fx.make_weight_services(shg_mgr, Y)
-    outer = SourceWeightedPDFRatio(dataset_idx=0, src_detsigyield_weights_service=sdw, pdfratio=inner, cfg=cfg)
-    x = _grid_x(case, trial)
-    tdm = fx.make_tdm(shg_mgr, pmm, fx.make_events(len(x), x=x), n_events=case['N'] + 3 * trial)
-    single = fx.make_single_llhratio(cfg, pmm, shg_mgr, tdm, outer)
-    B.multi = fx.make_multi_llhratio(cfg, pmm, sdw, dswf, [single])
+    B.tdms, B.llhs, B.inners = [], [], []
+    for j in range(J):
+        # one PDF set / ratio object per dataset (each keeps per-trial caches)
+        pdfs = []
+        for g in gvals:
+            # public constructor only: it builds the linear RegularGridInterpolator on the bin edges itself
+            pdfs.append(({'gamma': float(g)}, SignalMultiDimGridPDF(pmm=pmm, axis_binnings=axes, pdf_grid_data=grid_sig(g), cfg=cfg)))
+        sigset = SignalMultiDimGridPDFSet(
+            pmm=pmm, param_set=ParameterSet([Parameter('gamma', 1.5, float(gvals[0]), float(gvals[-1]))]),
+            param_grid_set=grid, gridparams_pdfs=pdfs, interpol_method_cls=icls, cfg=cfg)
+        bkg = BackgroundMultiDimGridPDF(pmm=pmm, axis_binnings=axes, pdf_grid_data=grid_bkg(), cfg=cfg)
+        inner = SigOverBkgPDFRatio(sig_pdf=sigset, bkg_pdf=bkg, same_axes=False, cfg=cfg)
+        outer = SourceWeightedPDFRatio(dataset_idx=j, src_detsigyield_weights_service=sdw, pdfratio=inner, cfg=cfg)
+        x = _grid_x(case, trial, j)
+        m = _grid_mask(case, trial, j)
+        esm = fx.StubEventSelection(shg_mgr, m) if m is not None else None
+        tdm = fx.make_tdm(shg_mgr, pmm, fx.make_events(len(x), x=x), n_events=case['N'] + 3 * trial, evt_sel_method=esm)
+        B.tdms.append(tdm)
+        B.inners.append(inner)
+        B.llhs.append(fx.make_single_llhratio(cfg, pmm, shg_mgr, tdm, outer))
+    B.multi = fx.make_multi_llhratio(cfg, pmm, sdw, dswf, B.llhs)
     B.multi.initialize_for_new_trial()
-    B.tdm, B.inner, B.outer = tdm, inner, outer
+    B.tdm = B.tdms[0]
     return B
 
 
 def start_trial_grid(B, case, trial):
-    x = _grid_x(case, trial)
-    B.tdm.initialize_trial(shg_mgr=B.shg_mgr, pmm=B.pmm, events=fx.make_events(len(x), x=x), n_events=case['N'] + 3 * trial)
+    for j, tdm in enumerate(B.tdms):
+        x = _grid_x(case, trial, j)
+        m = _grid_mask(case, trial, j)
+        esm = fx.StubEventSelection(B.shg_mgr, m) if m is not None else None
+        tdm.initialize_trial(shg_mgr=B.shg_mgr, pmm=B.pmm, events=fx.make_events(len(x), x=x), n_events=case['N'] + 3 * trial,
+                             evt_sel_method=esm)
     B.multi.initialize_for_new_trial()
 
 
